@@ -18,6 +18,7 @@
 //       the DL_POLY writer keeps process-global static state)
 #include "vfh.h"
 #include <fcntl.h>
+#include <spawn.h>
 #include <fstream>
 #include <sys/stat.h>
 #include <sys/wait.h>
@@ -49,6 +50,9 @@ struct Quiet {
 
 static vfh::Reporter R;
 static std::string g_dir = ".";
+static bool g_minimal = false;  // generate a small case (first witnesses are minimal)
+static std::set<std::string> g_case_keys;  // keys already reported for the current case
+static void new_case() { g_case_keys.clear(); }
 
 // one judged aspect of one format
 static bool judge(const std::string &fmt, const std::string &aspect, bool ok, const std::string &key,
@@ -56,7 +60,8 @@ static bool judge(const std::string &fmt, const std::string &aspect, bool ok, co
   R.counter("J:" + fmt + "/" + aspect);
   if (!ok) {
     R.counter("V:" + fmt + "/" + aspect);
-    R.violation(key, what, w);
+    if (g_case_keys.insert(key).second) R.violation(key, what, w);  // one witness per key and case
+    else ++R.violations;
   }
   return ok;
 }
@@ -86,6 +91,8 @@ struct CaseD {
   bool vel = false, frc = false;
   int boxkind = 1;  // 0 open 1 ortho 2 triclinic
   std::vector<FrameD> fr;
+  std::string tag;  // sub-family marker appended to the reread key
+  double dt = 0;
 };
 
 struct Limits {            // nm, VOTCA units: what fits the format's field
@@ -146,7 +153,10 @@ static M3 rbox(vfh::Rng &r, int kind, double hi) {
   return m;
 }
 
-static CaseD gen_case(vfh::Rng &r, const std::string &fmt, int maxbeads, int maxframes) {
+// minimal >= 0: a small case (1-2 beads, 1-2 frames) that cycles through the
+// box kinds and velocity/force flags, so that the first witness kept per key
+// is a minimal one
+static CaseD gen_case(vfh::Rng &r, const std::string &fmt, int maxbeads, int maxframes, int minimal = -1) {
   CaseD c;
   c.fmt = fmt;
   Limits L = limits(fmt);
@@ -157,6 +167,13 @@ static CaseD gen_case(vfh::Rng &r, const std::string &fmt, int maxbeads, int max
   c.frc = r.coin(0.4);
   int bk = (int)r.range(0, 9);
   c.boxkind = bk == 0 ? 0 : (bk <= 4 ? 1 : 2);
+  if (minimal >= 0) {
+    c.n = 1 + minimal % 2;
+    nfr = std::min(maxframes, 1 + (minimal / 2) % 2);
+    c.boxkind = 2 - (minimal / 4) % 3;
+    c.vel = (minimal / 12) % 2 == 0;
+    c.frc = (minimal / 12) % 2 == 0;
+  }
   // residues / names / types
   std::vector<std::string> tpool;
   int ntypes = (int)r.range(1, 4);
@@ -173,7 +190,13 @@ static CaseD gen_case(vfh::Rng &r, const std::string &fmt, int maxbeads, int max
   }
   double punit = fmt == "gro" ? 1e-3 : fmt == "xyz" ? 1e-6 : fmt == "pdb" ? 1e-4 : 1e-7;
   long step = r.coin(0.2) ? 0 : r.range(1, 100000);
-  double dt = r.logu(1e-3, 1.0);
+  // MD time step: usually a short decimal; sometimes a value with >= 9
+  // significant digits (sub-family "unrounded-dt", matters for DL_POLY HISTORY)
+  static const double nice[] = {0.001, 0.002, 0.0005, 0.004, 0.01, 0.02, 0.005, 1.0};
+  bool awkward = minimal < 0 && r.coin(0.25);
+  double dt = awkward ? r.logu(1e-3, 1.0) : nice[r.range(0, 7)];
+  if (awkward) c.tag = "unrounded-dt";
+  c.dt = dt;
   for (int f = 0; f < nfr; ++f) {
     FrameD F;
     F.box = rbox(r, c.boxkind, L.box_hi);
@@ -213,7 +236,7 @@ static std::string jstrs(const std::vector<std::string> &v) {
 // complete failing input: everything needed to rebuild the topology + frames
 static J case_json(const CaseD &c, size_t maxframes = 6) {
   J j;
-  j.s("format", c.fmt).i("nbeads", c.n).b("has_vel", c.vel).b("has_force", c.frc).i("boxkind", c.boxkind);
+  j.s("format", c.fmt).i("nbeads", c.n).b("has_vel", c.vel).b("has_force", c.frc).i("boxkind", c.boxkind).d("md_timestep", c.dt);
   j.raw("names", jstrs(c.name)).raw("types", jstrs(c.type)).raw("resnames", jstrs(c.resname));
   j.vec("resnr", c.resnr);
   std::string fr = "[";
@@ -360,12 +383,22 @@ static Cmp cmp_vecs(const std::vector<V3> &got, const std::vector<V3> &exp, doub
       if (d > c.worst) { c.worst = d; c.wi = (int)i; c.wk = k; c.wgot = g; c.wexp = e; c.wtol = t; }
       if (std::fabs(e) > 1e4 * t && std::isfinite(g)) ratios.push_back(g / e);
     }
-  if (c.bad() && ratios.size() >= 1) {
-    std::sort(ratios.begin(), ratios.end());
-    double med = ratios[ratios.size() / 2];
-    bool uniform = true;
-    for (double x : ratios) if (std::fabs(x - med) > 2e-3 * std::fabs(med)) uniform = false;
-    if (uniform && std::fabs(med - 1) > 1e-5) { c.units = true; c.factor = med; }
+  if (c.bad()) {
+    if (ratios.empty())
+      for (size_t i = 0; i < exp.size() && i < got.size(); ++i)
+        for (int k = 0; k < 3; ++k)
+          if (std::fabs(exp[i][k]) > 20 * tol1(exp[i][k], abs_half, sig, scale) && std::isfinite(got[i][k])) ratios.push_back(got[i][k] / exp[i][k]);
+    if (!ratios.empty()) {
+      std::sort(ratios.begin(), ratios.end());
+      double med = ratios[ratios.size() / 2];
+      bool uniform = std::fabs(med - 1) > 1e-5;
+      for (size_t i = 0; uniform && i < exp.size() && i < got.size(); ++i)
+        for (int k = 0; k < 3; ++k) {
+          double e = exp[i][k], t = tol1(e, abs_half, sig, scale) * std::max(1.0, std::fabs(med));
+          if (!(std::fabs(got[i][k] - med * e) <= 2 * t + 2e-3 * std::fabs(med * e))) uniform = false;
+        }
+      if (uniform) { c.units = true; c.factor = med; }
+    }
   }
   return c;
 }
@@ -518,7 +551,82 @@ static void judge_frames(const CaseD &c, const std::string &fmt, const std::vect
   }
 }
 
+// ------------------------------------------------------------ children
+// Crash-prone reads run in a fresh process (posix_spawn of this program in a
+// "child-*" mode; fork() of an ASan process costs ~0.5 s here).
+struct Child { bool signaled = false; int sig = 0, code = 0; std::string out, err; };
+extern char **environ;
+static Child spawn_self(const std::vector<std::string> &args) {
+  std::cout.flush();
+  std::string ef = g_dir + "/child.err";
+  int p[2];
+  if (pipe(p) != 0) { perror("pipe"); exit(3); }
+  posix_spawn_file_actions_t fa;
+  posix_spawn_file_actions_init(&fa);
+  posix_spawn_file_actions_addclose(&fa, p[0]);
+  posix_spawn_file_actions_adddup2(&fa, p[1], 1);
+  posix_spawn_file_actions_addclose(&fa, p[1]);
+  posix_spawn_file_actions_addopen(&fa, 2, ef.c_str(), O_WRONLY | O_CREAT | O_TRUNC, 0644);
+  std::vector<std::string> a = {"/proc/self/exe"};
+  a.insert(a.end(), args.begin(), args.end());
+  std::vector<char *> av;
+  for (auto &x : a) av.push_back(const_cast<char *>(x.c_str()));
+  av.push_back(nullptr);
+  pid_t pid;
+  int rc = posix_spawn(&pid, "/proc/self/exe", &fa, nullptr, av.data(), environ);
+  posix_spawn_file_actions_destroy(&fa);
+  close(p[1]);
+  Child c;
+  if (rc != 0) { close(p[0]); c.code = 99; c.out = "posix_spawn failed"; return c; }
+  char buf[4096];
+  ssize_t k;
+  while ((k = read(p[0], buf, sizeof buf)) > 0) c.out.append(buf, (size_t)k);
+  close(p[0]);
+  int st = 0;
+  waitpid(pid, &st, 0);
+  if (WIFSIGNALED(st)) { c.signaled = true; c.sig = WTERMSIG(st); } else c.code = WEXITSTATUS(st);
+  c.err = slurp(ef, 1 << 20);
+  if (c.err.size() > 5000) c.err = c.err.substr(0, 3500) + "\n...\n" + c.err.substr(c.err.size() - 1200);
+  return c;
+}
+// child-traj: read a trajectory into a topology of ntop beads; exit 10 = the
+// reader threw, 11 = it accepted every frame
+static int child_traj(const std::string &file, int ntop) {
+  Topology dst;
+  dst.CreateResidue("RES");
+  dst.RegisterBeadType("T");
+  for (int i = 0; i < ntop; ++i) dst.CreateBead(Bead::spherical, "B", "T", 0, 1.0, 0.0);
+  int frames = 0;
+  std::string msg;
+  int code = 11;
+  {
+    Quiet q;
+    std::unique_ptr<TrajectoryReader> rd = TrjReaderFactory().Create(file);
+    rd->Open(file);
+    try {
+      rd->FirstFrame(dst);
+      frames = 1;
+      while (frames < 4 && rd->NextFrame(dst)) ++frames;
+      msg = "no exception; frames accepted: " + std::to_string(frames);
+    } catch (std::exception &e) { msg = e.what(); code = 10; }
+  }
+  std::cout << msg << std::flush;
+  return code;
+}
+static int child_top(const std::string &file) {
+  try {
+    Quiet q;
+    Topology t3;
+    std::unique_ptr<TopologyReader> tr = TopReaderFactory().Create(file);
+    tr->ReadTopology(file, t3);
+  } catch (std::exception &e) { std::cout << e.what() << std::flush; return 10; }
+  return 0;
+}
+
+static long g_rt = 0;
 static void roundtrip(const CaseD &c, const std::string &file, const std::string &fmt, bool config = false) {
+  new_case();
+  ++g_rt;
   R.eval(fmt + (config ? "-config" : "") + "/roundtrip");
   R.nontrivial(case_hash(c));
   try {
@@ -539,7 +647,8 @@ static void roundtrip(const CaseD &c, const std::string &file, const std::string
     reread = false;
     msg = e.what();
   }
-  judge(fmt, "reread", reread, fmt + "/reread-rejected", "the matching reader throws on the file its own writer produced",
+  std::string rkey = fmt + "/reread-rejected" + ((fmt == "dlpoly" && !config && !c.tag.empty()) ? "-" + c.tag : "");
+  judge(fmt, "reread", reread, rkey, "the matching reader throws on the file its own writer produced",
         case_json(c, 1).s("exception", msg).s("file_head", slurp(file, 1500)));
   if (reread) {
     judge_frames(c, fmt, got, file, config, "reader");
@@ -568,11 +677,26 @@ static void roundtrip(const CaseD &c, const std::string &file, const std::string
   if (R.want_sample() && c.n <= 3) R.sample(case_json(c, 1).b("reread_ok", reread));
 
   // topology mode: the same file read through TopReaderFactory
-  if (fmt == "gro" || fmt == "dump" || fmt == "xyz") {
+  // (dump: needs a probe process per case, so only every 4th case)
+  if (fmt == "gro" || (fmt == "dump" && (g_rt <= 4 || g_rt % 4 == 0)) || fmt == "xyz") {
     R.eval(fmt + "/as-topology");
     Topology t2;
     bool ok = true;
     std::string m2;
+    if (fmt == "dump") {
+      // the topology reader can abort on its own writer's output: probe in a child
+      Child ch = spawn_self({"--family", "child-top", "--file", file});
+      if (!ch.signaled && ch.code != 0 && ch.code != 10) ch = spawn_self({"--family", "child-top", "--file", file});  // e.g. ASan start-up failure under load
+      if (ch.signaled) {
+        judge(fmt, "topology-read", false, "dump/topology-read-crash", "TopologyReader aborts on the file written by the trajectory writer",
+              case_json(c, 1).s("file_head", slurp(file, 1000)).i("signal", ch.sig).s("stderr", ch.err));
+        return;
+      }
+      if (ch.code != 0 && ch.code != 10) {
+        R.counter("probe_process_failed_not_judged");
+        return;
+      }
+    }
     try {
       Quiet q;
       std::unique_ptr<TopologyReader> tr = TopReaderFactory().Create(file);
@@ -613,40 +737,6 @@ static void roundtrip(const CaseD &c, const std::string &file, const std::string
   }
 }
 
-// ------------------------------------------------------------ children
-struct Child { bool signaled = false; int sig = 0, code = 0; std::string out, err; };
-template <class F>
-static Child run_child(F f) {
-  std::cout.flush();
-  std::string ef = g_dir + "/child.err";
-  int p[2];
-  if (pipe(p) != 0) { perror("pipe"); exit(3); }
-  pid_t pid = fork();
-  if (pid < 0) { perror("fork"); exit(3); }
-  if (pid == 0) {
-    close(p[0]);
-    int fd = open(ef.c_str(), O_WRONLY | O_CREAT | O_TRUNC, 0644);
-    dup2(fd, 2);
-    int code = 0;
-    std::string msg;
-    try { code = f(msg); } catch (std::exception &e) { code = 10; msg = e.what(); } catch (...) { code = 10; msg = "non-std exception"; }
-    (void)!write(p[1], msg.c_str(), msg.size());
-    _exit(code);
-  }
-  close(p[1]);
-  Child c;
-  char buf[4096];
-  ssize_t k;
-  while ((k = read(p[0], buf, sizeof buf)) > 0) c.out.append(buf, (size_t)k);
-  close(p[0]);
-  int st = 0;
-  waitpid(pid, &st, 0);
-  if (WIFSIGNALED(st)) { c.signaled = true; c.sig = WTERMSIG(st); } else c.code = WEXITSTATUS(st);
-  c.err = slurp(ef, 1 << 20);
-  if (c.err.size() > 5000) c.err = c.err.substr(0, 3500) + "\n...\n" + c.err.substr(c.err.size() - 1200);
-  return c;
-}
-
 // hand-written files in the formats' official layouts (used where the
 // library writer's output is not accepted by the library reader)
 static void write_xyz_ref(const std::string &file, const CaseD &c, int nb, bool append) {
@@ -676,8 +766,10 @@ static void write_pdb_ref(const std::string &file, const CaseD &c, int nb, bool 
 // a reader given a frame whose atom count disagrees with the topology must
 // report an error. mode 0: first frame disagrees; mode 1: second frame does.
 static void atomcount_case(vfh::Rng &r, const std::string &ext, const std::string &fmt, const std::string &file) {
-  CaseD c = gen_case(r, ext == "dlph" || ext == "dlpc" ? "dump" : ext, 40, 1);
+  new_case();
+  CaseD c = gen_case(r, ext == "dlph" || ext == "dlpc" ? "dump" : ext, 40, 1, g_minimal ? 0 : -1);
   c.fmt = ext;
+  c.tag = "";
   c.boxkind = c.boxkind == 2 ? 1 : c.boxkind;
   for (auto &F : c.fr) { M3 b = M3::Zero(); b.diagonal() = F.box.diagonal(); F.box = b; }
   int nfile = c.n + 1 + (int)r.range(0, 2);   // beads in the (deviating) frame
@@ -704,22 +796,8 @@ static void atomcount_case(vfh::Rng &r, const std::string &ext, const std::strin
   J w;
   w.s("format", ext).i("beads_in_topology", ntop).i("atoms_in_deviating_frame", nfile).i("deviating_frame_index", mode)
       .b("file_written_by_harness", handwritten).s("file", slurp(file, 2500)).raw("case", case_json(c, 1).str());
-  Child ch = run_child([&](std::string &msg) {
-    Topology dst;
-    build_top(dst, c, ntop);
-    Quiet q;
-    std::unique_ptr<TrajectoryReader> rd = TrjReaderFactory().Create(file);
-    rd->Open(file);
-    int frames = 0;
-    try {
-      bool ok = rd->FirstFrame(dst);
-      frames = 1;
-      (void)ok;
-      while (frames < 4 && rd->NextFrame(dst)) ++frames;
-    } catch (std::exception &e) { msg = e.what(); return 10; }
-    msg = "no exception; frames accepted: " + std::to_string(frames);
-    return 11;
-  });
+  Child ch = spawn_self({"--family", "child-traj", "--file", file, "--ntop", std::to_string(ntop)});
+  if (!ch.signaled && ch.code != 10 && ch.code != 11) ch = spawn_self({"--family", "child-traj", "--file", file, "--ntop", std::to_string(ntop)});
   if (ch.signaled) {
     judge(fmt, "atomcount", false, fmt + "/atomcount-crash", "reader neither reports the atom-count mismatch nor survives it (abort / memory error)",
           w.i("signal", ch.sig).s("stderr", ch.err));
@@ -729,12 +807,13 @@ static void atomcount_case(vfh::Rng &r, const std::string &ext, const std::strin
     judge(fmt, "atomcount", true, "", "", J());
     R.counter(fmt + "/atomcount_error_reported");
   } else {
-    R.inconclusive("atomcount child ended with unexpected code " + std::to_string(ch.code));
+    R.counter("probe_process_failed_not_judged");
   }
 }
 
 // ------------------------------------------------------------------- xml
 static void xml_case(vfh::Rng &r, const std::string &file) {
+  new_case();
   struct MolT { std::string name; int nb, nm; std::vector<std::string> bn, bt; std::vector<double> m, q; bool resid; std::vector<int> rid; };
   int nt = (int)r.range(1, 3);
   std::vector<MolT> mt;
@@ -881,9 +960,11 @@ static double rval(vfh::Rng &r) {
 static double tol_sig(double e, int sig) { return tol1(e, 0, sig, 1.0); }
 
 static void table_case(vfh::Rng &r, const std::string &file) {
+  new_case();
   using votca::tools::Table;
   int cls = (int)r.range(0, 9);
   int n = cls == 0 ? 1 : (cls <= 6 ? (int)r.range(2, 40) : (int)r.range(41, 1000));
+  if (g_minimal) n = (int)r.range(1, 3);
   bool yerr = r.coin(0.5), comment = r.coin(0.5), uniform = r.coin(0.6);
   std::vector<double> x(n), y(n), ye(n);
   std::vector<char> fl(n);
@@ -893,6 +974,7 @@ static void table_case(vfh::Rng &r, const std::string &file) {
     y[i] = rval(r);
     ye[i] = std::fabs(rval(r));
     fl[i] = "iou"[r.range(0, 2)];
+    if (!g_minimal && r.coin(0.01)) { y[i] = NAN; fl[i] = 'u'; }  // undefined region
   }
   std::string com;
   if (comment) {
@@ -928,7 +1010,7 @@ static void table_case(vfh::Rng &r, const std::string &file) {
     int bx = -1, byy = -1, bf = -1;
     for (int i = 0; i < n; ++i) {
       if (bx < 0 && !(std::fabs(u.x(i) - x[i]) <= tol_sig(x[i], 10))) bx = i;
-      if (byy < 0 && !(std::fabs(u.y(i) - y[i]) <= tol_sig(y[i], 10))) byy = i;
+      if (byy < 0 && !(std::isnan(y[i]) ? std::isnan(u.y(i)) : std::fabs(u.y(i) - y[i]) <= tol_sig(y[i], 10))) byy = i;
       if (bf < 0 && u.flags(i) != fl[i]) bf = i;
     }
     judge("table", "x", bx < 0, "table/x-precision", "x differs by more than half a unit of the 10th significant digit", W().i("row", bx).d("got", bx >= 0 ? u.x(bx) : 0).d("expected", bx >= 0 ? x[bx] : 0));
@@ -963,9 +1045,11 @@ static std::vector<std::vector<double>> parse_rows(const std::string &file) {
   return rows;
 }
 static void imc_matrix_case(vfh::Rng &r, const std::string &file) {
+  new_case();
   int cls = (int)r.range(0, 9);
   int rows = (int)r.range(1, 12), cols = cls < 4 ? rows : (int)r.range(1, 12);
   if (cls == 9) { rows = (int)r.range(20, 60); cols = (int)r.range(20, 60); }
+  if (g_minimal) { rows = (int)r.range(2, 3); cols = (int)r.range(2, 3); }
   bool sym = (rows == cols) && r.coin(0.25);
   Eigen::MatrixXd A(rows, cols);
   for (int i = 0; i < rows; ++i) for (int j = 0; j < cols; ++j) A(i, j) = rval(r);
@@ -1030,6 +1114,7 @@ static void imc_matrix_case(vfh::Rng &r, const std::string &file) {
   if (R.want_sample() && er <= 3 && ec <= 3 && nontriv) R.sample(w.b("roundtrip_equal", same));
 }
 static void imc_index_case(vfh::Rng &r, const std::string &file) {
+  new_case();
   using votca::tools::RangeParser;
   int n = (int)r.range(1, 6);
   std::vector<std::pair<std::string, RangeParser>> idx;
@@ -1072,6 +1157,7 @@ static void imc_index_case(vfh::Rng &r, const std::string &file) {
   judge("imc", "index", ok, "imc/index", "index ranges differ after write/read", W().s("difference", diff).i("got_entries", (long long)got.size()));
 }
 static void imc_ds_case(vfh::Rng &r, const std::string &file) {
+  new_case();
   using votca::tools::Table;
   int n = (int)r.range(1, 60);
   Table t;
@@ -1104,9 +1190,11 @@ int main(int argc, char **argv) {
   std::string base = g_dir + "/c";
   int maxbeads = (int)A.num("maxbeads", 200);
 
+  if (fam == "child-traj") return child_traj(A.str("file"), (int)A.num("ntop", 1));
+  if (fam == "child-top") return child_top(A.str("file"));
   if (fam == "gro" || fam == "xyz" || fam == "pdb" || fam == "dump") {
     for (long k = 0; k < n; ++k) {
-      CaseD c = gen_case(rng, fam, maxbeads, 6);
+      CaseD c = gen_case(rng, fam, maxbeads, 6, shard == 0 && k < 24 ? (int)k : -1);
       roundtrip(c, base + "." + fam, fam);
     }
   } else if (fam == "dlpoly") {
@@ -1115,10 +1203,11 @@ int main(int argc, char **argv) {
     int variant = (int)(k % 8);
     if (variant == 6 || variant == 7) {
       // a header / frame whose atom count disagrees with the topology
+      g_minimal = k < 16;
       atomcount_case(r2, variant == 6 ? "dlph" : "dlpc", "dlpoly", base + (variant == 6 ? ".dlph" : ".dlpc"));
     } else {
       bool config = variant == 5;
-      CaseD c = gen_case(r2, "dump", maxbeads, 6);
+      CaseD c = gen_case(r2, "dump", maxbeads, 6, k < 48 ? (int)(k / 8) * 4 + (int)(k % 4) : -1);
       c.fmt = config ? "dlpc" : "dlph";
       if (c.frc && !c.vel && r2.coin()) c.vel = true;
       roundtrip(c, base + (config ? ".dlpc" : ".dlph"), "dlpoly", config);
@@ -1127,15 +1216,17 @@ int main(int argc, char **argv) {
   } else if (fam == "atomcount") {
     const char *fm[4] = {"gro", "xyz", "pdb", "dump"};
     for (long k = 0; k < n; ++k) {
+      g_minimal = shard == 0 && k < 16;
       std::string f = fm[k % 4];
       atomcount_case(rng, f, f, base + "_ac." + f);
     }
   } else if (fam == "xml") {
     for (long k = 0; k < n; ++k) xml_case(rng, base + ".xml");
   } else if (fam == "table") {
-    for (long k = 0; k < n; ++k) table_case(rng, base + ".tab");
+    for (long k = 0; k < n; ++k) { g_minimal = shard == 0 && k < 10; table_case(rng, base + ".tab"); }
   } else if (fam == "imc") {
     for (long k = 0; k < n; ++k) {
+      g_minimal = shard == 0 && k < 10;
       imc_matrix_case(rng, base + ".gmc");
       if (k % 3 == 0) imc_index_case(rng, base + ".idx");
       if (k % 5 == 0) imc_ds_case(rng, base + ".imc");
